@@ -551,6 +551,15 @@ pub fn apply(s: &mut Pool2, step: &Step, ctx: &mut Ctx) {
         Op::Swap { side, amount, belief, max_spread, to } => {
             do_swap(s, ctx, actor, *side % 2, *amount, belief, max_spread, *to, step.fault, "swap");
         }
+        Op::SwapWithStrayCoin { side, amount, stray, first } => {
+            ctx.probe("swap_with_a_stray_coin_attached");
+            // (never more than the sender still holds of the stray denom: a bank failure for lack of the stray
+            // coin would be the harness's doing, not the pool's)
+            let have = s.app.wrap().query_balance(who, if *first { "a0junk" } else { "zzjunk" }).map(|c| c.amount.u128()).unwrap_or(0);
+            s.stray_next.set(Some(((*stray).min(have), *first)));
+            do_swap(s, ctx, actor, *side % 2, *amount, &None, &Some("0.5".to_string()), None, step.fault, "swap_with_stray_coin");
+            s.stray_next.set(None);
+        }
         Op::RoundTrip { side, amount } => {
             let side = *side % 2;
             // generous spread so that slippage does not stop the experiment
